@@ -71,7 +71,7 @@ def spec_discover(col):
         out['max_length'] = max(len(v) for v in vals)
     if nnull < 2:
         out['max_nulls'] = nnull
-    if t in ('string', 'int') and len(vals) > 1 and len(set(C._cmp_key(v) for v in vals)) == len(vals):
+    if t in ('string', 'int', 'date', 'bool') and len(vals) > 1 and len(set(C._cmp_key(v) for v in vals)) == len(vals):
         out['no_duplicates'] = True
     if t == 'string' and 1 <= len(set(vals)) <= 20:
         out['allowed_values'] = sorted(set(vals))
